@@ -423,6 +423,13 @@ impl SourceInfo {
         (lno, cno)
     }
 }
+#[cfg(feature = "verif")]
+impl SourceInfo {
+    /// Verification hook: builds source info from its parts.
+    pub fn verif_from_parts(src: String, nl_indices: Vec<usize>) -> Self {
+        Self { src, nl_indices }
+    }
+}
 impl From<&'_ str> for SourceInfo {
     fn from(value: &'_ str) -> Self {
         Self::new(value)
@@ -907,6 +914,40 @@ impl SymbolTable {
     pub fn line_iter(&self) -> impl Iterator<Item=(usize, u16)> + '_ {
         self.debug_symbols.iter()
             .flat_map(|s| s.line_map.iter())
+    }
+}
+#[cfg(feature = "verif")]
+impl SymbolTable {
+    /// Verification hook: builds a symbol table from label entries `(name, addr, src_start, external)`,
+    /// relocation entries `(addr, label)` and optional debug symbols `(line table, source)`.
+    pub fn verif_from_parts(
+        labels: Vec<(String, u16, usize, bool)>,
+        relocs: Vec<(u16, String)>,
+        debug: Option<(Vec<Option<u16>>, String)>
+    ) -> Option<Self> {
+        let label_map = labels.into_iter()
+            .map(|(name, addr, src_start, external)| (name, SymbolData { addr, src_start, external }))
+            .collect();
+        let rel_map = relocs.into_iter().collect();
+        let debug_symbols = match debug {
+            Some((lines, src)) => Some(DebugSymbols {
+                line_map: LineSymbolMap::new(lines)?,
+                src_info: SourceInfo::from_string(src)
+            }),
+            None => None
+        };
+        Some(Self { label_map, rel_map, debug_symbols })
+    }
+    /// Verification hook: the relocation entries `(addr, label)`.
+    pub fn verif_rel_iter(&self) -> impl Iterator<Item=(u16, &str)> + '_ {
+        self.rel_map.iter().map(|(&a, l)| (a, l.as_str()))
+    }
+}
+#[cfg(feature = "verif")]
+impl ObjectFile {
+    /// Verification hook: builds an object file from its blocks and symbol table.
+    pub fn verif_from_parts(blocks: Vec<(u16, Vec<Option<u16>>)>, sym: Option<SymbolTable>) -> Self {
+        Self { block_map: blocks.into_iter().collect(), sym }
     }
 }
 impl std::fmt::Debug for SymbolTable {
